@@ -19,7 +19,10 @@ RULE = ("one layout per case with sizes over all five units x value grid {0,0.5,
         "height only / none in 320..3840; relativize x fit_to_screen. Reference geometry in "
         "Fractions: px*100/dim, em=16px, pt=4/3px, c*100/32|15. Expected RelativizationError iff "
         "a needed dimension is missing. Non-trivial: at least one non-% unit, or an extent "
-        "crossing the 90/95 safe-area edges.")
+        "crossing the 90/95 safe-area edges. "
+        'Equal sizes of a layout may be one shared object; the writer may have written '
+        'another layout before and another writer with other options may have written an '
+        'equal layout. ')
 ASSUMPTIONS = [
     "printed value within 0.005 (+1e-9) of the exact percentage; region edges within 0.011",
     "relativize=False is only judged for layouts that are already all-percent (the combination "
